@@ -9,13 +9,17 @@ RULE = ("K: fdtdx.place_objects on generated scenes (volume 5-8 cells per axis; 
         "Sphere/ellipsoid and Cylinder objects at random positions; placement orders drawn from a small set so that ties are "
         "frequent, sometimes equal to or below the volume's -1000; materials per property isotropic / near-isotropic within "
         "math.isclose / diagonal / full tensor, magnetic or not, electrically and magnetically conductive or not; unused "
-        "entries in `materials` dicts and a Device whose materials only widen the tiers; float64). Observed: "
+        "entries in `materials` dicts and a Device whose materials only widen the tiers; 40 % of the scenes mix multi-material "
+        "objects WITH subpixel_smoothing=True and others WITHOUT, the latter birefringent and over anisotropic boxes; "
+        "float64). Observed: "
         "arrays.inv_permittivities, inv_permeabilities (array or scalar), electric_conductivity, magnetic_conductivity "
         "(array or None) and their component counts. Compared with the Lean model's initArrays (counts exactly, values 1e-9) "
         "fed with the container's object order, boxes, voxel masks and materials; and with an independent numpy oracle that "
         "takes, per cell, the covering object with the largest (placement_order, index in the list handed to place_objects), "
         "every scene containing an overlapping equal-order pair of a round (multi-material class) object and a box in "
-        "either list order; the widest tier any material "
+        "either list order; with smoothed objects the rule is checked on every cell outside their grid slices, component by "
+        "component, and those cells must be bit-identical to the same scene with all smoothing flags cleared; the widest "
+        "tier any material "
         "needs, and conductivity x uniform grid spacing. non-trivial = tier pattern x kinds x tie/below-volume flags.")
 
 _jax = None
@@ -112,7 +116,8 @@ QUICK_CYL = [(0, 2, 6), (1, 3, 3), (2, 2, 4)]          # (axis, diameter cells, 
 
 def gen_scene(rng, idx, thorough=False):
     V = [6, 6, 6] if not thorough else [rng.randint(5, 8) for _ in range(3)]
-    plan = {"eps": [1, 1, 3, 9][idx % 4] if idx < 8 else rng.choice([1, 3, 9]),
+    smooth_scene = idx % 5 in (1, 3)          # 40 %: some multi-material objects request sub-pixel smoothing, others not
+    plan = {"eps": 3 if smooth_scene else [1, 1, 3, 9][idx % 4] if idx < 8 else rng.choice([1, 3, 9]),
             "mu": rng.choice([0, 0, 1, 3, 9]), "sigE": rng.choice([0, 0, 1, 3, 9]), "sigM": rng.choice([0, 0, 0, 1, 3, 9])}
     orders = rng.choice([[0, 0, 1], [0, 1, 1, 2], [-1, 0, 0, 5], [0], [3, 2, 1, 0], [-1000, 0, 0], [-2000, -1000, 0, 1]])
     objs = []
@@ -155,6 +160,21 @@ def gen_scene(rng, idx, thorough=False):
     objs = objs[:at] + [pair[0]] + objs[at:]
     at2 = rng.randint(at + 1, len(objs))
     objs = objs[:at2] + [pair[1]] + objs[at2:]
+    if smooth_scene:
+        # one round object smoothed (the tied one or a fresh sphere), and ALWAYS a different, un-smoothed birefringent
+        # cylinder plus an anisotropic box underneath: the switch of one object must not touch the others' cells
+        rounds = [o for o in objs if o["kind"] != "box"]
+        rng.choice(rounds)["smooth"] = True
+        dia = lambda: [round(rng.uniform(1.5, 9.0), 3) for _ in range(3)]
+        lo = [rng.randint(0, V[0] - 2), rng.randint(0, V[1] - 2), rng.randint(0, V[2] - 4)]
+        objs.append({"kind": "cyl", "order": rng.choice(orders), "axis": 2, "mat": {**gen_material(rng, plan), "eps": dia()},
+                     "extra": [], "size": [2, 2, 4], "lo": lo})
+        zlo = rng.randint(0, V[2] - 2)
+        objs.insert(0, {"kind": "box", "order": min(orders), "mat": {**gen_material(rng, plan), "eps": dia()},
+                        "size": [V[0], V[1], 2], "lo": [0, 0, zlo]})
+        if rng.chance(0.5):
+            un = [o for o in objs if o["kind"] != "box" and not o.get("smooth")]
+            rng.choice(un)["mat"]["eps"] = dia()
     scene = {"volume": V, "vol_order": rng.choice([-1000] * 9 + [0]), "vol_mat": gen_material(rng, plan) if rng.chance(0.5) else {},
              "objects": objs, "device": None}
     if rng.chance(0.25):
@@ -183,14 +203,16 @@ def build_scene(sc):
             if o["kind"] == "sphere":
                 r = [s * H / 2.0 for s in o["size"]]
                 ob = fdtdx.Sphere(name=name, radius=r[0], radius_x=r[0], radius_y=r[1], radius_z=r[2], material_name="paint",
-                                  materials=mats, placement_order=int(o["order"]))
+                                  materials=mats, placement_order=int(o["order"]),
+                                  subpixel_smoothing=bool(o.get("smooth", False)))
             else:
                 ax = int(o["axis"])
                 t = [a for a in range(3) if a != ax][0]
                 pgs = [None, None, None]
                 pgs[ax] = int(o["size"][ax])
                 ob = fdtdx.Cylinder(name=name, radius=o["size"][t] * H / 2.0, axis=ax, partial_grid_shape=tuple(pgs),
-                                    material_name="paint", materials=mats, placement_order=int(o["order"]))
+                                    material_name="paint", materials=mats, placement_order=int(o["order"]),
+                                    subpixel_smoothing=bool(o.get("smooth", False)))
         objs.append(ob)
         cons.append(fdtdx.GridCoordinateConstraint(object=name, axes=[0, 1, 2], sides=["-", "-", "-"],
                                                    coordinates=[int(v) for v in o["lo"]]))
@@ -232,7 +254,16 @@ def observe(sc):
         else:
             mask[sl] = np.broadcast_to(np.asarray(o.get_voxel_mask_for_shape()).astype(bool), box[sl].shape)
             mat, mats = o.materials[o.material_name], list(o.materials.values())
+        smooth = (not uniform) and bool(getattr(o, "subpixel_smoothing", False))
+        nrm2 = np.zeros((3,) + V)
+        if smooth:
+            fill = np.broadcast_to(np.asarray(o.get_fill_fraction_for_shape(), dtype=float), box[sl].shape)
+            if not np.all((fill == 0.0) | (fill == 1.0)):
+                raise RuntimeError("fractional fill fraction: outside the model (0/1 fill only)")
+            nrm2[(slice(None),) + sl] = np.broadcast_to(np.asarray(o.get_interface_normal_for_shape(), dtype=float),
+                                                        (3,) + box[sl].shape) ** 2
         painters.append({"name": o.name, "order": int(o.placement_order), "uniform": uniform, "box": box, "mask": mask,
+                         "smooth": smooth, "nrm2": nrm2,
                          "slice": [list(map(int, t)) for t in o.grid_slice_tuple],
                          "mat": mat_tuple(mat), "mats": [mat_tuple(m) for m in mats]})
     devmats = [mat_tuple(m) for d in oc.devices for m in d.materials.values()]
@@ -256,7 +287,10 @@ def model_arrays(ctx, V, painters, devmats, consts):
         if len(others) != len(p["mats"]) - 1:              # duplicates of the painted material: keep the count right
             others = list(p["mats"])
             others.remove(p["mat"])
-        toks += [str(p["order"]), "1" if p["uniform"] else "0", bits(p["box"]), bits(p["mask"]), str(1 + len(others)), m36(p["mat"])]
+        toks += [str(p["order"]), "1" if p["uniform"] else ("2" if p["smooth"] else "0"), bits(p["box"]), bits(p["mask"])]
+        if p["smooth"]:
+            toks.append(" ".join(f2h(x) for x in p["nrm2"].ravel()))          # n_i^2, component-major
+        toks += [str(1 + len(others)), m36(p["mat"])]
         toks += [m36(m) for m in others]
     toks.append(str(len(devmats)))
     toks += [m36(m) for m in devmats]
@@ -308,8 +342,14 @@ def oracle(V, painters, devmats):
         best_key[upd] = rank[i]
         winner[upd] = i
     out = {}
+    smoothed = [p for p in painters if p.get("smooth")]
+    # cells inside the grid slice of a smoothed object are outside the painter's-rule oracle for the permittivity
+    # (there the blend writes the xx entry on every diagonal component); everywhere else the rule is exact
+    out["eps_checked"] = ~np.any([p["box"] for p in smoothed], axis=0) if smoothed else np.ones(V, dtype=bool)
     for prop in PROPS:
         n = max(need(m[prop]) for m in allm)
+        if prop == "eps" and smoothed:
+            n = 3                                         # any smoothed object forces the diagonal tier
         inverse = prop in ("eps", "mu")
         if prop == "mu" and all(all(math.isclose(m["mu"][k], 1.0 if k in (0, 4, 8) else 0.0) for k in range(9)) for m in allm):
             out[prop] = 1.0
@@ -339,6 +379,9 @@ def compare(got, exp, tol=1e-9):
             continue
         if g.shape != e.shape:
             return f"{prop}: component count {g.shape[0]} instead of {e.shape[0]}"
+        if prop == "eps" and "eps_checked" in exp and not exp["eps_checked"].all():
+            g = np.where(exp["eps_checked"][None], g, 0.0)
+            e = np.where(exp["eps_checked"][None], e, 0.0)
         err = relerr(g, e, floor=1e-300)
         if not err <= tol:
             bad = np.argwhere(~np.isclose(g, e, rtol=1e-7, atol=0.0) | (np.isnan(g) != np.isnan(e)))
@@ -353,10 +396,31 @@ def property_fails(sc):
     except Exception as e:                               # a valid scene on which the real code raises
         return f"place_objects raised {type(e).__name__}: {str(e)[:300]}"
     exp, winner = oracle(tuple(sc["volume"]), painters, devmats)
-    d = compare(got, exp)
+    d = compare(got, exp) or twin_detail(sc, got, exp)
     if d:
-        k = None
-        return d + f" | objects in list order: {[(p['name'], p['order'], p['slice']) for p in painters]}"
+        return d + f" | objects in list order: {[(p['name'], p['order'], p['slice'], 'smoothed' if p['smooth'] else '') for p in painters]}"
+    return None
+
+
+def twin_detail(sc, got, exp):
+    """the smoothing switch is per object: outside the smoothed objects' grid slices the arrays are bit-identical to the
+    same scene with every smoothing flag cleared (compared when the twin has the same permittivity tier)"""
+    if not any(o.get("smooth") for o in sc["objects"]):
+        return None
+    twin = {**sc, "objects": [{**o, "smooth": False} for o in sc["objects"]]}
+    try:
+        tgot, _, _, _ = observe(twin)
+    except Exception as e:
+        return f"the same scene without smoothing flags raised {type(e).__name__}: {str(e)[:200]}"
+    for prop in PROPS:
+        g, t = got[prop], tgot[prop]
+        if isinstance(g, np.ndarray) and isinstance(t, np.ndarray) and g.shape == t.shape:
+            keep = exp["eps_checked"][None] if prop == "eps" else np.ones((1,) + g.shape[1:], dtype=bool)
+            same = (g == t) | (np.isnan(g) & np.isnan(t)) | ~keep
+            if not same.all():
+                k = tuple(int(x) for x in np.argwhere(~same)[0])
+                return (f"{prop}: cell {k} outside every smoothed object differs from the same scene without smoothing "
+                        f"flags ({g[k]!r} vs {t[k]!r}): the switch of one object changed another object's cells")
     return None
 
 
@@ -364,7 +428,7 @@ def property_fails(sc):
 def scene_key(sc, got, painters):
     tiers = tuple(("s" if isinstance(got[p], (int, float)) else "-" if got[p] is None else got[p].shape[0]) for p in PROPS)
     orders = [p["order"] for p in painters]
-    kinds = tuple(sorted({o["kind"] for o in sc["objects"]}))
+    kinds = tuple(sorted({o["kind"] + ("~" if o.get("smooth") else "") for o in sc["objects"]}))
     return (tiers, kinds, len(set(orders)) < len(orders), min(orders[1:]) <= orders[0] if len(orders) > 1 else False)
 
 
@@ -380,7 +444,9 @@ def check_scene(ctx, sc, sample=False):
     overl = int(np.sum(np.sum([p["box"] & (p["mask"] | p["uniform"]) for p in painters], axis=0) > 2))
     ctx.case(sample={"scene": sc, "tiers": key[0]} if sample else None, nontrivial=key, op="paint",
              tiers="/".join(map(str, key[0])), ties=key[2], at_or_below_volume=key[3], objects=len(painters),
-             cells_with_3plus_layers=min(overl, 1))
+             cells_with_3plus_layers=min(overl, 1),
+             smoothed_and_unsmoothed_round_objects=(sum(1 for p in painters if p["smooth"]),
+                                                    sum(1 for p in painters if not p["uniform"] and not p["smooth"])))
     model = model_arrays(ctx, V, painters, devmats, consts)
     for prop in PROPS:
         g, m = got[prop], model[prop]
@@ -398,7 +464,7 @@ def check_scene(ctx, sc, sample=False):
     ctx.expect_close("cond-spacing", sc, [consts["c"] * consts["dt"] / consts["courant"]], [H], tol=1e-12, floor=1e-300)
     ctx.impl_property_evals += 1
     exp, _ = oracle(V, painters, devmats)
-    d = compare(got, exp)
+    d = compare(got, exp) or twin_detail(sc, got, exp)
     if d:
         ctx.violation(sc, d)
     return d
@@ -416,6 +482,13 @@ FIXED = [
         {"kind": "box", "order": 0, "mat": {"eps": 2.0}, "size": [3, 3, 3], "lo": [2, 2, 2]},
         {"kind": "cyl", "order": 2, "axis": 2, "mat": {"eps": 7.0}, "extra": [], "size": [2, 2, 4], "lo": [0, 0, 1]},
         {"kind": "box", "order": 2, "mat": {"eps": 3.0}, "size": [1, 1, 1], "lo": [1, 1, 2]}]},
+    # per-object sub-pixel switch: a smoothed isotropic sphere; elsewhere an UN-smoothed birefringent cylinder and an
+    # un-smoothed ellipsoid over an anisotropic slab must keep their yy / zz entries
+    {"volume": [6, 6, 6], "vol_order": -1000, "vol_mat": {}, "device": None, "objects": [
+        {"kind": "box", "order": 0, "mat": {"eps": [2.5, 3.5, 4.5]}, "size": [6, 6, 2], "lo": [0, 0, 4]},
+        {"kind": "sphere", "order": 1, "mat": {"eps": 5.0}, "extra": [], "size": [4, 4, 4], "lo": [0, 0, 0], "smooth": True},
+        {"kind": "cyl", "order": 1, "axis": 2, "mat": {"eps": [2.0, 3.0, 4.0]}, "extra": [], "size": [2, 2, 4], "lo": [4, 4, 1]},
+        {"kind": "sphere", "order": 2, "mat": {"eps": [6.0, 7.0, 8.0]}, "extra": [], "size": [4, 3, 2], "lo": [2, 3, 4]}]},
     # everything wide: full permittivity tensor, diagonal permeability, conductivities
     {"volume": [6, 6, 6], "vol_order": -1000, "vol_mat": {"eps": 1.5}, "device": None, "objects": [
         {"kind": "box", "order": 0, "mat": {"eps": [2.0, 0.1, 0.0, 0.1, 3.0, 0.2, 0.0, 0.2, 4.0], "sigE": 3.0e4}, "size": [2, 4, 3], "lo": [0, 1, 2]},
